@@ -15,7 +15,10 @@ Complete small-scope input enumeration on the real code, in five layers:
      numpy.empty answering with poisoned memory (the allocator is an environment whose answer
      the library must not depend on).
   V  _calc_ohvmat (all parent tuples, all chunk sizes), OPV and GenotypeBuilder latentfn on every
-     block-value array over a value alphabet.
+     block-value array over a value alphabet; plus set-then-query HISTORIES on one problem object
+     (build, evaluate twice, assign haplomat / ohvmat / nbestfndr / obj_wt / decn_space_xmap through
+     the public setter or edit the data array in place, evaluate again) whose every step must equal a
+     FRESH problem built from the new data, with data and decision vectors left untouched.
   L  the whole pipeline from_pgmat_gpmod -> ohvmat / haplomat / latentfn for OHV (4 decision
      encodings), OPV and GenotypeBuilder on every small layout x total x genotype family x
      effect family; oracle computed marker by marker from the genotypes, incl. every doubled
@@ -47,7 +50,8 @@ TECHNIQUE = ("complete small-scope input enumeration (every marker layout over a
 RULE = ("P: one case = (layout, per-chromosome block vector) through haplobin + haplobin_bounds, and (layout, total) through "
         "nhaploblk_chrom; a layout = per chromosome a non-decreasing sequence of grid positions; non-trivial = some chromosome "
         "is cut into >= 2 blocks. H: one case = (layout, total, builder) with basis genotypes. V: one case = one block-value "
-        "array (all crosses / subsets / chunk sizes evaluated on it). L: one case = (layout, total, genotype, effects) through "
+        "array (all crosses / subsets / chunk sizes evaluated on it) + the set-then-query histories OPV (4 steps), GenotypeBuilder (3), "
+        "OHV-subset (3) with a partner array as the new data (the other OHV encodings on every 8th array). L: one case = (layout, total, genotype, effects) through "
         "from_pgmat_gpmod of OHV-subset, OPV, GenotypeBuilder (+ the three other OHV encodings on a fixed slice). "
         "states = distinct (layer, configuration) identifiers; transitions = real function / method calls; traces = cases whose "
         "every observation agreed with the reference")
@@ -576,13 +580,134 @@ def v_one(ctx, n, b, h, hn):
     return True
 
 
+# ---- set-then-query histories on ONE problem object --------------------------------------------
+def _obs(ctx, prob, xs, data_attr, cname):
+    """Observable behaviour of a problem: latentfn on every x of xs and evalfn on the last; the problem's data array
+    and the decision vectors must come back untouched."""
+    data0 = getattr(prob, data_attr).copy()
+    out = []
+    for x in xs:
+        x0 = x.copy()
+        with POISON:
+            r = prob.latentfn(x)
+        ctx.transitions += 1
+        if not numpy.array_equal(x, x0):
+            raise Violation(cname + ":history:argument-mutated", f"latentfn changed its decision vector {x0.tolist()} into {x.tolist()}")
+        out.append(numpy.asarray(r, dtype="float64").tolist())
+    with POISON:
+        ev = prob.evalfn(xs[-1])
+    ctx.transitions += 1
+    out.append([numpy.asarray(z, dtype="float64").tolist() for z in ev])
+    if not numpy.array_equal(getattr(prob, data_attr), data0, equal_nan=True):
+        raise Violation(cname + ":history:data-mutated-by-evaluation",
+                        f"evaluating the problem changed its {data_attr}: {data0.tolist()} -> {getattr(prob, data_attr).tolist()}")
+    return out
+
+
+def _same_obs(a, b):
+    fa = numpy.array([v for r in a[:-1] for v in r] + [v for z in a[-1] for v in z], dtype="float64")
+    fb = numpy.array([v for r in b[:-1] for v in r] + [v for z in b[-1] for v in z], dtype="float64")
+    return fa.shape == fb.shape and bool(numpy.allclose(fa, fb, rtol=1e-12, atol=1e-12, equal_nan=True))
+
+
+def _history(ctx, cname, data_attr, build, state0, steps, xs_of):
+    """build(state) -> fresh problem.  steps = [(label, mutate(prob), new_state)].  After every step the mutated object must
+    behave exactly like a FRESH problem built from the new state; evaluating twice must give the same answers."""
+    prob = build(state0)
+    xs = xs_of(state0)
+    o1 = _obs(ctx, prob, xs, data_attr, cname)
+    o1b = _obs(ctx, prob, xs, data_attr, cname)
+    if not _same_obs(o1, o1b):
+        raise Violation(cname + ":history:evaluate-twice", f"{cname}: first evaluation {o1}, second evaluation of the same object {o1b}")
+    of0 = _obs(ctx, build(state0), xs, data_attr, cname)
+    if not _same_obs(o1, of0):
+        raise Violation(cname + ":history:evaluate-twice", f"{cname}: two problems built from the same data differ: {o1} vs {of0}")
+    for label, mutate, st in steps:
+        mutate(prob)
+        xs = xs_of(st)
+        got = _obs(ctx, prob, xs, data_attr, cname)
+        want = _obs(ctx, build(st), xs, data_attr, cname)
+        if not _same_obs(got, want):
+            raise Violation(cname + ":history:stale-after:" + label,
+                            f"{cname}: built, evaluated, then {label} (set-X: `prob.X = new`; inplace-X: `prob.X[...] = new`), evaluated again: latentfn/evalfn "
+                            f"give {got} but a fresh problem built with the new data gives {want} (x = {[x.tolist() for x in xs]})")
+        got2 = _obs(ctx, prob, xs, data_attr, cname)
+        if not _same_obs(got, got2):
+            raise Violation(cname + ":history:evaluate-twice", f"{cname} after `{label}`: {got} then {got2}")
+    return True
+
+
+def v_hist(ctx, n, b, hn, hn2, thin):
+    """Histories for OPV, GenotypeBuilder and OHV (subset; the other encodings on a fixed slice)."""
+    T = 2
+    kw = dict(ndecn=n, decn_space=numpy.arange(n), decn_space_lower=0, decn_space_upper=n - 1, nobj=T)
+    wt2 = numpy.array([-1.0, 2.0])
+    xs_taxa = [numpy.array(x, dtype="int64") for x in ([0], [n - 1, 0], list(range(n)))]
+    parts = []
+
+    # ---- OPV: state = (haplomat, obj_wt)
+    def b_opv(st):
+        return OptimalPopulationValueSubsetSelectionProblem(haplomat=st[0].copy(), obj_wt=st[1], **kw)
+    parts.append(lambda: _history(ctx, OPV, "haplomat", b_opv, (hn, None), [
+        ("set-haplomat", lambda p: setattr(p, "haplomat", hn2.copy()), (hn2, None)),
+        ("inplace-haplomat", lambda p: p.haplomat.__setitem__(Ellipsis, hn), (hn, None)),
+        ("set-obj_wt", lambda p: setattr(p, "obj_wt", wt2.copy()), (hn, wt2)),
+        ("set-haplomat", lambda p: setattr(p, "haplomat", hn2.copy()), (hn2, wt2)),
+    ], lambda st: xs_taxa))
+
+    # ---- GenotypeBuilder: state = (haplomat, nbestfndr)
+    def b_gb(st):
+        return GenotypeBuilderSubsetSelectionProblem(haplomat=st[0].copy(), nbestfndr=st[1], **kw)
+    xs_gb = [numpy.array(x, dtype="int64") for x in ([n - 1, 0], list(range(n)))]
+    parts.append(lambda: _history(ctx, GB, "haplomat", b_gb, (hn, 1), [
+        ("set-haplomat", lambda p: setattr(p, "haplomat", hn2.copy()), (hn2, 1)),
+        ("set-nbestfndr", lambda p: setattr(p, "nbestfndr", 2), (hn2, 2)),
+        ("inplace-haplomat", lambda p: p.haplomat.__setitem__(Ellipsis, hn), (hn, 2)),
+    ], lambda st: xs_gb))
+
+    # ---- OHV: state = (ohvmat, xmap)
+    xm = xmap_for(n, 2, False)
+    nx = len(xm)
+    om1 = OptimalHaploidValueSubsetSelectionProblem._calc_ohvmat(2, hn, xm, None)
+    om2 = OptimalHaploidValueSubsetSelectionProblem._calc_ohvmat(2, hn2, xm, None)
+    xs_sub = [numpy.array(x, dtype="int64") for x in ([0], [nx - 1, 0], list(range(nx)))]
+
+    def b_ohv(st):
+        return OptimalHaploidValueSubsetSelectionProblem(ohvmat=st[0].copy(), ndecn=2, decn_space=numpy.arange(nx), decn_space_lower=0,
+                                                         decn_space_upper=nx - 1, decn_space_xmap=st[1].copy(), nobj=T)
+    parts.append(lambda: _history(ctx, OHVS, "ohvmat", b_ohv, (om1, xm), [
+        ("set-ohvmat", lambda p: setattr(p, "ohvmat", om2.copy()), (om2, xm)),
+        ("set-decn_space_xmap", lambda p: setattr(p, "decn_space_xmap", xm[::-1].copy()), (om2, xm[::-1])),
+        ("inplace-ohvmat", lambda p: p.ohvmat.__setitem__(Ellipsis, om1), (om1, xm[::-1])),
+    ], lambda st: xs_sub))
+
+    if thin:
+        for cls, dt in ((OptimalHaploidValueRealSelectionProblem, "float64"), (OptimalHaploidValueIntegerSelectionProblem, "int64"),
+                        (OptimalHaploidValueBinarySelectionProblem, "int64")):
+            def b_enc(st, cls=cls, dt=dt):
+                lower = numpy.zeros(nx, dtype=dt)
+                upper = numpy.ones(nx, dtype=dt)
+                return cls(ohvmat=st[0].copy(), ndecn=nx, decn_space=numpy.stack([lower, upper]), decn_space_lower=lower,
+                           decn_space_upper=upper, decn_space_xmap=st[1].copy(), nobj=T)
+            xs_enc = [numpy.array([1] + [0] * (nx - 1), dtype=dt), numpy.array([1] + [0] * (nx - 2) + [1], dtype=dt)]
+            parts.append(lambda b_enc=b_enc, cls=cls, xs_enc=xs_enc: _history(ctx, cls.__name__, "ohvmat", b_enc, (om1, xm), [
+                ("set-ohvmat", lambda p: setattr(p, "ohvmat", om2.copy()), (om2, xm)),
+                ("inplace-ohvmat", lambda p: p.ohvmat.__setitem__(Ellipsis, om1), (om1, xm)),
+            ], lambda st: xs_enc))
+    return parts
+
+
+def v_numpy(h):
+    return numpy.array([[[[float(x) for x in blk] for blk in tx] for tx in ph] for ph in h], dtype="float64")
+
+
 def run_V(spec, ctx):
     _, name, a, b_ = spec
     n, b, vals, tot, _ = v_space(name, ctx.seed)
     ctx.flag(f"V:{name}")
     for idx in range(a, b_):
         h = v_array(n, b, vals, idx)
-        hn = numpy.array([[[[float(x) for x in blk] for blk in tx] for tx in ph] for ph in h], dtype="float64")
+        hn = v_numpy(h)
         case = dict(layer="V", name=name, idx=idx, seed=ctx.seed)
         ctx.evaluations += 1
         sid = b"V" + name.encode() + idx.to_bytes(4, "big")
@@ -591,6 +716,15 @@ def run_V(spec, ctx):
         if len(set(flat)) > 1:
             ctx.nontrivial.add(sid)
         ok, _ = guard_case(ctx, lambda: v_one(ctx, n, b, h, hn), case, "V:")
+        # set-then-query histories: this array as the old data, a partner array as the new data
+        idx2 = (idx * 5 + 7) % tot
+        if idx2 == idx:
+            idx2 = (idx + 1) % tot
+        hn2 = v_numpy(v_array(n, b, vals, idx2))
+        for part in v_hist(ctx, n, b, hn, hn2, idx % 8 == 0):
+            okh, _ = guard_case(ctx, part, dict(case, layer="VH", idx2=idx2), "VH:")
+            ok = ok and okh
+            ctx.count("V:histories")
         if ok:
             ctx.traces += 1
             ctx.outcome(("V", name, tuple(R.best_sum(h, tuple(range(n)), 2))))
@@ -851,6 +985,7 @@ def finalize(ctx, tier, seed):
     # exact size of the partition space: nothing silently skipped
     nlay = lambda lens: math.prod(math.comb(L + NGRID - 1, NGRID - 1) for L in lens)
     assert c.get("B:cases", 0) == sum(2 * 3 ** (L - 1) for L in range(1, 7)), c.get("B:cases")
+    assert c.get("V:histories", 0) >= 3 * sum(v_space(name, seed)[3] for (name,) in V), c.get("V:histories")
     assert c.get("P:apportion-cases", 0) == sum(nlay(l) * (sum(l) - len(l) + 1) for l in P), c.get("P:apportion-cases")
     assert c.get("P:bin-cases", 0) == sum(nlay(l) * math.prod(l) for l in P), c.get("P:bin-cases")
     assert sum(v for k, v in c.items() if k.startswith("H:calls:")) + 4 * c.get("H:skipped-apportionment-exceeds-markers(layout,total)", 0) \
@@ -885,6 +1020,12 @@ def replay(case, ctx):
         h = v_array(n, b, vals, case["idx"])
         hn = numpy.array([[[[float(x) for x in blk] for blk in tx] for tx in ph] for ph in h], dtype="float64")
         ctx.guard(lambda: v_one(ctx, n, b, h, hn), case=case, sig_prefix="V:")
+    elif lay == "VH":
+        n, b, vals, tot, _ = v_space(case["name"], seed)
+        hn = v_numpy(v_array(n, b, vals, case["idx"]))
+        hn2 = v_numpy(v_array(n, b, vals, case["idx2"]))
+        for part in v_hist(ctx, n, b, hn, hn2, case["idx"] % 8 == 0):
+            ctx.guard(part, case=case, sig_prefix="VH:")
     elif lay == "L":
         lt = tuple(tuple(ch) for ch in case["lay"])
         lo = Layout(lt, seed)
